@@ -2,6 +2,7 @@ import AuthModel
 import AuthModel.Wire
 import AuthModel.Store.Memory
 import AuthModel.Store.Redis
+import AuthModel.Oidc.Run
 open AuthModel AuthModel.Wire
 
 def parseMatch (t : Tok) : Option StringMatch :=
@@ -51,84 +52,158 @@ def parseChain (t : Tok) : Option Chain :=
   | _ => none
 
 structure DState where
-  kind : Nat := 0              -- 0 memory, 1 redis
-  mem : MemStore := MemStore.empty 0 0
-  abs : Int := 0
-  idle : Int := 0
-  red : Str → RHash := fun _ => {}
+  st : StoreW := {}
   now : Int := 0
   parseTbl : List (Str × Bool) := []
+  cfg : Cfg := { clientId := [], clientSecret := [], callbackUri := [], cbScheme := [], cbHost := [], cbPort := [],
+                 cbPath := [], authUri := [], tokenUri := [], scopes := [], cookiePrefix := [], idHeader := [],
+                 idPreamble := [], access := none, logout := none }
+  tokTbl : List (Str × Option TokAttrs × Bool) := []
+  s256Tbl : List (Str × Str) := []
 
 def DState.parses (d : DState) : Str → Bool := fun s =>
   match d.parseTbl.find? (·.1 == s) with
   | some e => e.2
-  | none => false
+  | none =>
+    match d.tokTbl.find? (·.1 == s) with
+    | some e => e.2.1.isSome
+    | none => false
+
+def DState.oracles (d : DState) : Oracles :=
+  { attrs := fun s => match d.tokTbl.find? (·.1 == s) with | some e => e.2.1 | none => none,
+    sigOK := fun s => match d.tokTbl.find? (·.1 == s) with | some e => e.2.2 | none => false,
+    s256 := fun v => match d.s256Tbl.find? (·.1 == v) with | some e => e.2 | none => [] }
+
+def DState.store (d : DState) : StoreW := { d.st with parses := d.parses }
 
 def showExp : Option Int → String
   | none => "-"
   | some e => toString e
 
+def showTokens (t : Tokens) : String :=
+  hex t.idToken ++ " " ++ hex t.accessToken ++ " " ++ hex t.refreshToken ++ " " ++ showExp t.accessExp
+
 def showTok : Option Tokens → String
   | none => "nil"
-  | some t => "tok " ++ hex t.idToken ++ " " ++ hex t.accessToken ++ " " ++ hex t.refreshToken ++ " " ++ showExp t.accessExp
+  | some t => "tok " ++ showTokens t
+
+def showAuthState (a : AuthState) : String :=
+  hex a.state ++ " " ++ hex a.nonce ++ " " ++ hex a.requestedUrl ++ " " ++ hex a.codeVerifier
 
 def showAuth : Option AuthState → String
   | none => "nil"
-  | some a => "auth " ++ hex a.state ++ " " ++ hex a.nonce ++ " " ++ hex a.requestedUrl ++ " " ++ hex a.codeVerifier
+  | some a => "auth " ++ showAuthState a
 
 def okErr (b : Bool) : String := if b then "ok" else "err"
 
 def expOf (t : Tok) : Option (Option Int) := if t = ['-'] then some none else (intOf t).map some
 
 def storeOp (d : DState) (toks : List Tok) : DState × String :=
+  let w := d.store
   match toks with
   | [['s','e','t','t','o','k'], _inst, id, a, b, c, e] =>
     match unhex id, unhex a, unhex b, unhex c, expOf e with
     | some id, some a, some b, some c, some e =>
-      let t : Tokens := { idToken := a, accessToken := b, refreshToken := c, accessExp := e }
-      if d.kind = 0 then ({ d with mem := d.mem.setTok d.now id t }, "ok")
-      else
-        let (h, ok) := Redis.setTok d.abs d.idle d.now t (d.red id)
-        ({ d with red := upd d.red id h }, okErr ok)
+      let (w', ok) := w.setTok d.now id { idToken := a, accessToken := b, refreshToken := c, accessExp := e }
+      ({ d with st := w' }, okErr ok)
     | _, _, _, _, _ => (d, "bad-op")
   | [['s','e','t','a','u','t','h'], _inst, id, a, b, c, e] =>
     match unhex id, unhex a, unhex b, unhex c, unhex e with
     | some id, some a, some b, some c, some e =>
-      let st : AuthState := { state := a, nonce := b, requestedUrl := c, codeVerifier := e }
-      if d.kind = 0 then ({ d with mem := d.mem.setAuth d.now id st }, "ok")
-      else
-        let (h, ok) := Redis.setAuth d.abs d.idle d.now st (d.red id)
-        ({ d with red := upd d.red id h }, okErr ok)
+      let (w', ok) := w.setAuth d.now id { state := a, nonce := b, requestedUrl := c, codeVerifier := e }
+      ({ d with st := w' }, okErr ok)
     | _, _, _, _, _ => (d, "bad-op")
   | [op, _inst, id] =>
     match unhex id with
     | none => (d, "bad-op")
     | some id =>
       if op = "gettok".toList then
-        if d.kind = 0 then
-          let (m, r) := d.mem.getTok d.now id
-          ({ d with mem := m }, showTok r)
-        else
-          let (h, r) := Redis.getTok d.parses d.abs d.idle d.now (d.red id)
-          ({ d with red := upd d.red id h }, match r with | .ok t => showTok t | .err => "err")
+        let (w', r) := w.getTok d.now id
+        ({ d with st := w' }, match r with | .ok t => showTok t | .err => "err")
       else if op = "getauth".toList then
-        if d.kind = 0 then
-          let (m, r) := d.mem.getAuth d.now id
-          ({ d with mem := m }, showAuth r)
-        else
-          let (h, r) := Redis.getAuth d.abs d.idle d.now (d.red id)
-          ({ d with red := upd d.red id h }, match r with | .ok t => showAuth t | .err => "err")
+        let (w', r) := w.getAuth d.now id
+        ({ d with st := w' }, match r with | .ok t => showAuth t | .err => "err")
       else if op = "clear".toList then
-        if d.kind = 0 then ({ d with mem := d.mem.clearAuth d.now id }, "ok")
-        else
-          let (h, ok) := Redis.clearAuth d.abs d.idle d.now (d.red id)
-          ({ d with red := upd d.red id h }, okErr ok)
+        let (w', ok) := w.clearAuth d.now id
+        ({ d with st := w' }, okErr ok)
       else if op = "remove".toList then
-        if d.kind = 0 then ({ d with mem := d.mem.remove id }, "ok")
-        else ({ d with red := upd d.red id (Redis.remove (d.red id)) }, "ok")
+        let (w', ok) := w.remove id
+        ({ d with st := w' }, okErr ok)
       else (d, "bad-op")
   | [['s','w','e','e','p'], _inst] =>
-    if d.kind = 0 then ({ d with mem := d.mem.removeAllExpired d.now }, "ok") else (d, "ok")
+    if w.kind = 0 then ({ d with st := { w with mem := w.mem.removeAllExpired d.now } }, "ok") else (d, "ok")
+  | _ => (d, "bad-op")
+
+/-! handler-level records -/
+
+def parseStrList (t : Tok) : Option (List Str) := (splitList ',' t).mapM unhex
+
+def parsePairOpt (t : Tok) : Option (Option (Str × Str)) :=
+  if t = ['-'] then some none else
+  match splitC ':' t with
+  | [a, b] => do pure (some ((← unhex a), (← unhex b)))
+  | _ => none
+
+def parseCfg (toks : List Tok) : Option Cfg :=
+  match toks with
+  | [cid, sec, cb, sch, host, port, path, auth, tokUri, scopes, pfx, idh, idp, acc, lo] => do
+    pure { clientId := (← unhex cid), clientSecret := (← unhex sec), callbackUri := (← unhex cb),
+           cbScheme := (← unhex sch), cbHost := (← unhex host), cbPort := (← unhex port), cbPath := (← unhex path),
+           authUri := (← unhex auth), tokenUri := (← unhex tokUri), scopes := (← parseStrList scopes),
+           cookiePrefix := (← unhex pfx), idHeader := (← unhex idh), idPreamble := (← unhex idp),
+           access := (← parsePairOpt acc), logout := (← parsePairOpt lo) }
+  | _ => none
+
+def parseNonce (t : Tok) : Option NonceClaim :=
+  match t with
+  | ['a'] => some .absent
+  | ['o'] => some .other
+  | 's' :: r => (unhex r).map .str
+  | _ => none
+
+def parseIdp (t : Tok) : Option IdpAns :=
+  match t with
+  | ['t'] => some .transportErr
+  | ['u'] => some .undecodable
+  | 's' :: r => (natOf r).map .status
+  | 'b' :: ':' :: r =>
+    match splitC ':' r with
+    | [a, b, c, e, ty] => do
+      pure (.body { idToken := (← unhex a), accessToken := (← unhex b), refreshToken := (← unhex c),
+                    expiresIn := (← intOf e), tokenType := (← unhex ty) })
+    | _ => none
+  | _ => none
+
+def parseFaults (t : Tok) : List Nat :=
+  if t = ['-'] then [] else t.map fun c => c.toNat - 48
+
+def showAct : Act → String
+  | .removeSession id => "remove:" ++ hex id
+  | .getTok id => "gettok:" ++ hex id
+  | .setTok id t => "settok:" ++ hex id ++ ":" ++ hex t.idToken ++ ":" ++ hex t.accessToken ++ ":" ++ hex t.refreshToken ++ ":" ++ showExp t.accessExp
+  | .getAuth id => "getauth:" ++ hex id
+  | .setAuth id a => "setauth:" ++ hex id ++ ":" ++ hex a.state ++ ":" ++ hex a.nonce ++ ":" ++ hex a.requestedUrl ++ ":" ++ hex a.codeVerifier
+  | .clearAuth id => "clear:" ++ hex id
+  | .idp (.code uri code ru v cid cs) => "idp:code:" ++ hex uri ++ ":" ++ hex code ++ ":" ++ hex ru ++ ":" ++ hex v ++ ":" ++ hex cid ++ ":" ++ hex cs
+  | .idp (.refresh uri rt cid cs) => "idp:refresh:" ++ hex uri ++ ":" ++ hex rt ++ ":" ++ hex cid ++ ":" ++ hex cs
+  | .keys => "keys"
+  | .gen => "gen"
+  | .now => "now"
+
+def showTrace (tr : List Act) : String :=
+  let items := (tr.filter fun a => a != .now).map showAct
+  if items.isEmpty then "-" else String.intercalate "," items
+
+def handleReq (d : DState) (toks : List Tok) : DState × String :=
+  match toks with
+  | [http, scheme, host, path, query, cookie, gen, idp, keys, faults] =>
+    match boolOf http, unhex scheme, unhex host, unhex path, unhex query, unhex cookie, parseStrList gen, parseIdp idp, boolOf keys with
+    | some http, some scheme, some host, some path, some query, some cookie, some [g1, g2, g3, g4], some idp, some keys =>
+      let req : Req := { http := http, scheme := scheme, host := host, path := path, query := query, cookie := cookie }
+      let sc : Script := { gen := (g1, g2, g3, g4), idp := idp, keysOk := keys, faults := parseFaults faults }
+      let (w', resp, tr) := runProg d.store d.now sc (Oidc.process d.cfg d.oracles req) sc.faults []
+      ({ d with st := w' }, showResp resp ++ " | " ++ showTrace tr)
+    | _, _, _, _, _, _, _, _, _ => (d, "bad-op")
   | _ => (d, "bad-op")
 
 def handle (d : DState) (toks : List Tok) : DState × String :=
@@ -150,13 +225,27 @@ def handle (d : DState) (toks : List Tok) : DState × String :=
   | [['s','t','o','r','e'], ['n','e','w'], kind, abs, idle, now] =>
     match intOf abs, intOf idle, intOf now with
     | some a, some i, some n =>
-      ({ d with kind := if kind = "mem".toList then 0 else 1, mem := MemStore.empty a i, abs := a, idle := i,
-                red := fun _ => {}, now := n, parseTbl := [] }, "ok")
+      ({ d with st := { kind := if kind = "mem".toList then 0 else 1, mem := MemStore.empty a i, abs := a, idle := i },
+                now := n, parseTbl := [], tokTbl := [], s256Tbl := [] }, "ok")
     | _, _, _ => (d, "bad-op")
   | [['o','r','a','c','l','e'], ['p','a','r','s','e'], s, b] =>
     match unhex s, boolOf b with
     | some s, some b => ({ d with parseTbl := (s, b) :: d.parseTbl }, "ok")
     | _, _ => (d, "bad-op")
+  | [['o','r','a','c','l','e'], ['t','o','k'], s, parse, exp, aud, nonce, sig] =>
+    match unhex s, boolOf parse, intOf exp, parseStrList aud, parseNonce nonce, boolOf sig with
+    | some s, some p, some e, some au, some n, some sg =>
+      ({ d with tokTbl := (s, (if p then some { exp := e, aud := au, nonce := n } else none), sg) :: d.tokTbl }, "ok")
+    | _, _, _, _, _, _ => (d, "bad-op")
+  | [['o','r','a','c','l','e'], ['s','2','5','6'], v, c] =>
+    match unhex v, unhex c with
+    | some v, some c => ({ d with s256Tbl := (v, c) :: d.s256Tbl }, "ok")
+    | _, _ => (d, "bad-op")
+  | ['c','f','g'] :: rest =>
+    match parseCfg rest with
+    | some c => ({ d with cfg := c }, "ok")
+    | none => (d, "bad-op")
+  | ['r','e','q'] :: rest => handleReq d rest
   | [['t','i','c','k'], n] =>
     match intOf n with
     | some n => ({ d with now := d.now + n }, "ok")
